@@ -240,11 +240,49 @@ def run(chk, facts, tier, only=None):
         chk.expect("BTreeMap" in tys.get("type_map", "") and "Vec" in tys.get("type_table", ""), "type_map-ordered",
                    f"TypeSerialize.type_map/type_table must be ordered containers, found {tys.get('type_map')}, {tys.get('type_table')}")
 
+    def r6():
+        # message layout: magic, type table, argument types, values — in that order
+        h = c.fn(r"ser::IDLBuilder::serialize$")
+        chk.analysed(h["key"])
+        seq = []
+        for n in walk(h["body"]):
+            if n.get("k") == "mcall" and n["m"] == "write_all":
+                arg = n["args"][0]
+                lit = [x for x in walk(arg) if x.get("k") == "lit" and "bytes" in (x.get("v") or {})]
+                if lit:
+                    seq.append("magic:" + bytes(lit[0]["v"]["bytes"]).decode("latin1"))
+                else:
+                    seq.append("write:" + ".".join((expr_path(x["recv"]) or "?").split(".")[-1] for x in walk(arg) if x.get("k") == "mcall" and x["m"] == "get_result"))
+            elif n.get("k") == "mcall" and n["m"] == "serialize" and (expr_path(n["recv"]) or "").endswith("type_ser"):
+                seq.append("build-type-section")
+        chk.expect(seq == ["magic:DIDL", "build-type-section", "write:type_ser", "write:value_ser"], "layout:message",
+                   f"IDLBuilder::serialize must write the magic `DIDL`, then the type section, then the value section; found {seq}",
+                   ok_detail=str(seq))
+        h = c.fn(r"ser::TypeSerialize::serialize$")
+        chk.analysed(h["key"])
+        seq = []
+        for n in walk(h["body"]):
+            if n.get("k") == "call" and (callee(n) or "").endswith("leb128::write::unsigned"):
+                src = [expr_path(x["recv"]) for x in walk(n["args"][1]) if x.get("k") == "mcall" and x["m"] == "len"]
+                seq.append("count:" + (src[0] or "?").split(".")[-1] if src else "count:?")
+            elif n.get("k") == "mcall" and n["m"] == "append" and (expr_path(n["recv"]) or "").endswith("result"):
+                inner = [expr_path(x["recv"]) for x in walk(n["args"][0]) if x.get("k") == "mcall" and x["m"] == "concat"]
+                seq.append("append:" + ((inner[0] or "?").split(".")[-1] if inner else (expr_path(n["args"][0]) or "?").split(".")[-1]))
+        chk.expect(seq == ["count:type_table", "append:type_table", "count:args", "append:ty_encode"], "layout:type-section",
+                   f"TypeSerialize::serialize must write the table length, the table entries, the argument count and the argument types; found {seq}",
+                   ok_detail=str(seq))
+        # one type and one value per argument, type first
+        for fname in ("arg", "value_arg"):
+            h = c.fn(r"ser::IDLBuilder::%s$" % fname)
+            seq = [n["m"] for n in method_calls(h["body"], r"^(push_type|idl_serialize)$")]
+            chk.expect(seq == ["push_type", "idl_serialize"], f"layout:{fname}", f"IDLBuilder::{fname} must push the argument's type and then serialise the value; found {seq}")
+
     for rid, desc, fn in (("C03.R1", "opcode and annotation tables of encoder and header parser equal spec/Candid.md", r1),
                           ("C03.R2", "only composite types enter the type table; indices come from type_map", r2),
                           ("C03.R3", "fields/methods are sorted and checked unique at every constructor", r3),
                           ("C03.R4", "primitive writers: little-endian of the right width; prefixes precede payloads", r4),
-                          ("C03.R5", "no unordered (hash) iteration on the encoding path", r5)):
+                          ("C03.R5", "no unordered (hash) iteration on the encoding path", r5),
+                          ("C03.R6", "message layout: magic, type table, argument types, values", r6)):
         if only and only != rid:
             continue
         chk.run_rule(rid, desc, fn)
